@@ -57,25 +57,26 @@ type Preempt struct {
 }
 
 type Config struct {
-	Policy        int       `json:"policy"`
-	Quantum       int64     `json:"quantum"`     // steps; Fair: slice length, Adversarial: starvation cap (0 = none)
-	Jitter        int64     `json:"jitter"`      // max ns a timer wake-up is late
-	SwitchProb    uint32    `json:"switch_prob"` // per 1024, at sync points (Adversarial)
-	WakeRunProb   uint32    `json:"wake_prob"`   // per 1024, timer-woken task runs at once (Adversarial)
-	Preempts      []Preempt `json:"preempts"`    // explicit pre-emption points
-	MaxSteps      int64     `json:"max_steps"`   // global cap
-	PoolMode      int       `json:"pool_mode"`
-	MissProb      uint32    `json:"miss_prob"`       // per 1024: Get pretends the pool is empty
-	DropProb      uint32    `json:"drop_prob"`       // per 1024: Put drops the item
-	ScribbleProb  uint32    `json:"scribble_prob"`   // per 1024: a pooled slice is overwritten while it sits in the pool
-	Alphabet      []rune    `json:"alphabet"`        // what scribbling writes
-	StallProb     uint32    `json:"stall_prob"`      // per 1024: a Sleep of a spawned task oversleeps
-	StallMax      int64     `json:"stall_max"`       // ns
-	LastFaultStep int64     `json:"last_fault_step"` // no stall is injected after this global step (0 = never stop)
-	SpawnCost     int64     `json:"spawn_cost"`      // step cost of tasks started through Go (0 = the parent's)
-	SyncStallProb uint32    `json:"sync_stall_prob"` // per 1024: a task is descheduled for a while at a sync point
-	SyncStallMax  int64     `json:"sync_stall_max"`  // ns
-	Trace         bool      `json:"-"`
+	Policy           int       `json:"policy"`
+	Quantum          int64     `json:"quantum"`     // steps; Fair: slice length, Adversarial: starvation cap (0 = none)
+	Jitter           int64     `json:"jitter"`      // max ns a timer wake-up is late
+	SwitchProb       uint32    `json:"switch_prob"` // per 1024, at sync points (Adversarial)
+	WakeRunProb      uint32    `json:"wake_prob"`   // per 1024, timer-woken task runs at once (Adversarial)
+	Preempts         []Preempt `json:"preempts"`    // explicit pre-emption points
+	MaxSteps         int64     `json:"max_steps"`   // global cap
+	PoolMode         int       `json:"pool_mode"`
+	MissProb         uint32    `json:"miss_prob"`               // per 1024: Get pretends the pool is empty
+	DropProb         uint32    `json:"drop_prob"`               // per 1024: Put drops the item
+	ScribbleProb     uint32    `json:"scribble_prob"`           // per 1024: a pooled slice is overwritten while it sits in the pool
+	Alphabet         []rune    `json:"alphabet"`                // what scribbling writes
+	StallProb        uint32    `json:"stall_prob"`              // per 1024: a Sleep of a spawned task oversleeps
+	StallMax         int64     `json:"stall_max"`               // ns
+	LastFaultStep    int64     `json:"last_fault_step"`         // no stall is injected after this global step (0 = never stop)
+	SpawnCost        int64     `json:"spawn_cost"`              // step cost of tasks started through Go (0 = the parent's)
+	SyncStallProb    uint32    `json:"sync_stall_prob"`         // per 1024: a task is descheduled for a while at a sync point
+	SyncStallMax     int64     `json:"sync_stall_max"`          // ns
+	SyncStallSpawned bool      `json:"sync_stall_spawned_only"` // only tasks started by the code under test are stalled
+	Trace            bool      `json:"-"`
 }
 
 type Task struct {
@@ -546,7 +547,7 @@ func (w *World) syncPoint(site int) {
 		w.preNext++
 		w.setNext(t)
 	}
-	if w.Cfg.SyncStallProb > 0 && site != -7 && (w.Cfg.LastFaultStep == 0 || w.Steps < w.Cfg.LastFaultStep) && w.chance(w.Cfg.SyncStallProb) {
+	if w.Cfg.SyncStallProb > 0 && site != -7 && (!w.Cfg.SyncStallSpawned || t.Site != 0) && (w.Cfg.LastFaultStep == 0 || w.Steps < w.Cfg.LastFaultStep) && w.chance(w.Cfg.SyncStallProb) {
 		// fault: the OS deschedules this task right here for a while (a slow or stalled caller / clock goroutine)
 		w.St.SyncStalls++
 		d := 1 + int64(w.Draw(uint64(w.Cfg.SyncStallMax)+1))
